@@ -761,7 +761,8 @@ class LongReadAssigner:
 
         min_penalty_score = min(isoform_scores, key=lambda x:x[1])[1]
         # logger.debug("* * Best penalty_score " + str(min_penalty_score))
-        best_isoforms = [x[0] for x in filter(lambda x:x[1] == min_penalty_score, isoform_scores)]
+        # scores are float sums of event costs: isoforms whose scores differ only by rounding of the summation order are tied
+        best_isoforms = [x[0] for x in filter(lambda x:x[1] - min_penalty_score < 1e-6, isoform_scores)]
         # logger.debug("* * Best isoforms " + str(best_isoforms))
 
         # if several isoforms are tied select the best according to nucl penalty_score
